@@ -36,6 +36,29 @@ theorem fast_path_enters_at_once (s : State) (i w : Nat) (ha : active s i = fals
   have : ¬ s.max < w := by omega
   simp [step, ha, this, hv]
 
+/-- One manager object may be entered any number of times: starting from the idle semaphore, any sequence of
+enter / leave pairs of the SAME manager — each leave being a normal exit, an exit by exception or a cancellation —
+brings the semaphore back to exactly its idle state (nothing handed out, full value).  (`_AcquireManager` has no state of
+its own; with other tasks around, `capacity_never_exceeded` and `release_on_exit` say the same for every interleaving,
+including two tasks inside the same manager at once: they are just two holders of weight `n`.) -/
+theorem manager_reuse_restores (max : Nat) (mgr : Manager) (i : Nat) (hn : mgr.n ≤ max) (ks : List (Nat → Op))
+    (hk : ∀ k ∈ ks, k = Op.release ∨ k = Op.fail ∨ k = Op.cancel) :
+    run (init max) (ks.flatMap fun k => [mgr.enter i, k i]) = .ok (init max) := by
+  induction ks with
+  | nil => rfl
+  | cons k ks ih =>
+    have hpair : ∀ k', (k' = Op.release ∨ k' = Op.fail ∨ k' = Op.cancel) →
+        run (init max) ([mgr.enter i, k' i] ++ (ks.flatMap fun k => [mgr.enter i, k i])) = .ok (init max) := by
+      intro k' hk'
+      have hlt : ¬ (max < mgr.n) := by omega
+      have hfit : ((max : Int) ≥ (mgr.n : Int)) := by omega
+      have hadd : ((max : Int) - (mgr.n : Int) + (mgr.n : Int)) = max := by omega
+      have ih' := ih (fun k hk0 => hk k (List.mem_cons_of_mem _ hk0))
+      rcases hk' with rfl | rfl | rfl <;>
+        simp [run, step, exitBody, Manager.enter, init, active, ids, take, releaseW, drain, hlt, hfit, hadd] <;>
+        simpa [init, Manager.enter] using ih'
+    simpa [List.flatMap_cons] using hpair k (hk k (by simp))
+
 /-- Every exit kind returns the weight: if task `i` is in the body with weight `w`, then leaving normally, by an
 exception or by cancellation are the same step; afterwards `i` is no longer a holder and exactly `w` has gone back
 to the free value or straight to waiters granted by this very release. -/
@@ -144,6 +167,10 @@ example : run (init 2) [.acquire 0 2, .acquire 1 1, .acquire 2 2, .release 0, .c
     = .ok ⟨2, 0, [], [], [(2, 2)]⟩ := by decide
 -- exit by exception and by cancellation of a holder
 example : run (init 2) [.acquire 0 1, .acquire 1 1, .fail 0, .cancel 1] = .ok (init 2) := by decide
+-- one manager object of weight 2 entered three times in a row (left normally, by an exception, by cancellation) and then by two
+-- tasks at once (the second has to wait for the first): afterwards everything is free again
+example : run (init 2) [(Manager.mk 2).enter 0, .release 0, (Manager.mk 2).enter 0, .fail 0, (Manager.mk 2).enter 0, .cancel 0,
+      (Manager.mk 2).enter 1, (Manager.mk 2).enter 2, .release 1, .resume 2, .release 2] = .ok (init 2) := by decide
 -- the assertion `n <= self.max`
 example : step (init 2) (.acquire 0 3) = .error .assertion := by decide
 
